@@ -449,6 +449,10 @@ func (h *hist) write(to []byte, port uint16, n int, more bool) {
 		if len(la) != 0 && len(la) != len(eff) {
 			routable = false
 		}
+		// both default routes leave through NIC 1: a socket bound to an address of NIC 2 has no route
+		if len(la) != 0 && string(la) != string(nic4[1]) && string(la) != string(nic6[1]) {
+			routable = false
+		}
 		if len(la) == 0 {
 			if effFam == 4 {
 				rsrc = nic4[1]
